@@ -100,6 +100,15 @@ structure TimeInit where
 def TimeInit.tod (ti : TimeInit) : Int :=
   ti.hour * 3600000000 + ti.minute * 60000000 + ti.second * 1000000 + ti.microsecond
 
+/-- the time fields of `os.stat(path)` (microseconds): what the creation-time functions of
+`_ctime_functions.py` can fall back on -/
+structure StatTimes where
+  st_mtime : Int
+  st_ctime : Int       -- on Linux the inode-change time (chmod, mv, utime …), NOT a creation time
+  st_atime : Int
+  st_birthtime : Int
+  deriving Repr, DecidableEq
+
 /-- an exact non-negative-denominator rational `num / den` (numbers with fractions never become
 floats in the model) -/
 structure Rat' where
